@@ -71,6 +71,8 @@ RawFam == LET p == QMod IN
     Pow2(320), Sub(Pow2(320), One), Sub(Pow2(384), Pow2(64)), p, Sub(p, One), Add(p, One), ShiftR(p, 1), Add(ShiftR(p, 1), One),
     TopWordOf(p, 48, 64), Sub(Pow2(384), p), Sub(Pow2(192), One), Pow2(192), ModN(Pow2(768), p) }
 Impls == {"member", "base", "bmi2"}
+Unred == LET p == QMod IN { p, Add(p, One), Sub(Pow2(383), One), Pow2(383), Add(Pow2(383), One), Sub(Pow2(384), One), Sub(Pow2(384), p), Add(Pow2(383), ShiftR(p, 1)),
+                          Add(ShiftR(p, 1), Pow2(383)), Sub(Add(p, p), One), Add(p, p), Sub(p, One), One, Zero }
 RawCases ==
   LET p   == QMod
       inv == Sub(Pow2(384), ModInv(ModN(p, Pow2(384)), Pow2(384)))   \* -p^-1 mod 2^384 (2^384 is not prime: see note)
@@ -88,6 +90,10 @@ RawCases ==
      \o SetToSeq({ [op |-> o, impl |-> im, a |-> LE(x[1], 48), b |-> LE(x[2], 48), p |-> LE(p, 48), alias |-> al, src |-> "gen"] :
                 o \in {"raw.fpadd", "raw.fpsub"}, im \in Impls, x \in (fam \X fam) \cup sums, al \in {0, 1} })
      \o SetToSeq({ [op |-> "raw.fpdbl", impl |-> im, a |-> LE(x, 48), p |-> LE(p, 48), alias |-> al, src |-> "gen"] : im \in Impls, x \in UnFam(p, 48), al \in {0, 1} })
+     \* unreduced operands of the modular add / subtract / double routines (C03: bit-identical on ALL 384-bit operands)
+     \o SetToSeq({ [op |-> o, impl |-> im, a |-> LE(x[1], 48), b |-> LE(x[2], 48), p |-> LE(p, 48), alias |-> al, src |-> "gen"] :
+                o \in {"raw.fpadd", "raw.fpsub"}, im \in Impls, x \in Unred \X Unred, al \in {0, 1} })
+     \o SetToSeq({ [op |-> "raw.fpdbl", impl |-> im, a |-> LE(x, 48), p |-> LE(p, 48), alias |-> al, src |-> "gen"] : im \in Impls, x \in RawFam \cup Unred, al \in {0, 1} })
      \o SetToSeq({ [op |-> "raw.mul", impl |-> im, a |-> LE(x[1], 48), b |-> LE(x[2], 48), src |-> "gen"] : im \in Impls, x \in RawFam \X RawFam })
      \o SetToSeq({ [op |-> "raw.sqr", impl |-> im, a |-> LE(x, 48), src |-> "gen"] : im \in Impls, x \in RawFam \cup fam })
      \o SetToSeq({ [op |-> "raw.redc", impl |-> im, w |-> LE(x, 96), p |-> LE(p, 48), inv |-> LE(inv, 48), src |-> "gen"] : im \in Impls, x \in wide })
